@@ -233,3 +233,145 @@ def gen_variant_config(rng, ndev=None, max_plugs=5):
             for n, p in zip(nodes, pn):
                 cfg.truth[name][p] = n
     return cfg
+
+
+# ---------------------------------------------------------------- random scripts: text + AST tokens (for R-DEV / C08)
+def q(s):
+    """quote a python string as a powerman.conf string literal (parse_lex.l escapes)"""
+    out = ""
+    for ch in s:
+        if ch == "\n": out += "\\n"
+        elif ch == "\r": out += "\\r"
+        elif ch == '"': out += '\\"'
+        elif ch == "\\": out += "\\\\"
+        else: out += ch
+    return '"' + out + '"'
+
+
+class Stmt:
+    """tiny AST mirrored by Model/ScriptAst.v; tok() is the encoding driver/dev_drv.ml reads, text() the .dev source"""
+    def __init__(self, kind, **kw):
+        self.kind = kind; self.__dict__.update(kw)
+
+    def text(self, ind="\t\t"):
+        k = self.kind
+        if k == "send": return ind + "send " + q(self.fmt)
+        if k == "expect": return ind + "expect " + q(self.re_src)
+        if k == "delay": return ind + "delay %s" % self.secs
+        if k == "setplugstate":
+            s = ind + "setplugstate "
+            if self.lit is not None: s += q(self.lit) + " "
+            elif self.pmp >= 0: s += "$%d " % self.pmp
+            s += "$%d" % self.smp
+            for code, re_ in self.interps:
+                s += " %s=%s" % ("on" if code == "on" else "off", q(re_))
+            return s
+        if k == "setresult":
+            return ind + "setresult $%d $%d" % (self.pmp, self.smp) + "".join(" success=%s" % q(r) for _, r in self.interps)
+        kw = {"foreachplug": "foreachplug", "foreachnode": "foreachnode", "ifon": "ifon", "ifoff": "ifoff"}[k]
+        return ind + kw + " {\n" + "\n".join(x.text(ind + "\t") for x in self.body) + "\n" + ind + "}"
+
+    def tok(self, consts):
+        hx = lambda s: (s.encode("latin-1").hex() or "-")
+        k = self.kind
+        if k == "send": return ["S", hx(self.fmt)]
+        if k == "expect": return ["E", hx(self.re_src)]
+        if k == "delay": return ["D", str(int(round(float(self.secs) * 1000000)))]
+        if k == "setplugstate":
+            t = ["P", "~" if self.lit is None else hx(self.lit), str(0 if self.lit is not None else self.pmp), str(self.smp), str(len(self.interps))]
+            for code, re_ in self.interps:
+                t += [str(consts["ST_ON"] if code == "on" else consts["ST_OFF"]), hx(re_)]
+            return t
+        if k == "setresult":
+            t = ["R", str(self.pmp), str(self.smp), str(len(self.interps))]
+            for _, re_ in self.interps:
+                t += [str(consts["RT_SUCCESS"]), hx(re_)]
+            return t
+        tag = {"foreachplug": "FP", "foreachnode": "FN", "ifon": "ION", "ifoff": "IOFF"}[k]
+        t = [tag, str(len(self.body))]
+        for x in self.body:
+            t += x.tok(consts)
+        return t
+
+
+def parse_script_text(txt):
+    """the generated script bodies of script_text() as Stmt trees (so that generated specs have an AST too)"""
+    import re
+    toks = re.findall(r'"(?:[^"\\]|\\.)*"|\{|\}|[^\s{}]+', txt)
+    pos = [0]
+
+    def unq(t):
+        s = t[1:-1]; out = ""; i = 0
+        while i < len(s):
+            if s[i] == "\\" and i + 1 < len(s):
+                c = s[i + 1]
+                out += {"n": "\n", "r": "\r", "t": "\t", '"': '"', "\\": "\\"}.get(c, "\\" + c); i += 2
+            else:
+                out += s[i]; i += 1
+        return out
+
+    def block():
+        out = []
+        while pos[0] < len(toks) and toks[pos[0]] != "}":
+            t = toks[pos[0]]; pos[0] += 1
+            if t == "send":
+                out.append(Stmt("send", fmt=unq(toks[pos[0]]))); pos[0] += 1
+            elif t == "expect":
+                out.append(Stmt("expect", re_src=unq(toks[pos[0]]))); pos[0] += 1
+            elif t == "delay":
+                out.append(Stmt("delay", secs=toks[pos[0]])); pos[0] += 1
+            elif t in ("setplugstate", "setresult"):
+                lit, mps, ints = None, [], []
+                while pos[0] < len(toks) and (toks[pos[0]].startswith('"') or toks[pos[0]].startswith("$") or "=" in toks[pos[0]]):
+                    x = toks[pos[0]]; pos[0] += 1
+                    if x.startswith("$"): mps.append(int(x[1:]))
+                    elif x.startswith('"'): lit = unq(x)
+                    else:
+                        k, v = x.split("=", 1)
+                        if v == "":
+                            v = toks[pos[0]]; pos[0] += 1
+                        ints.append((k, unq(v)))
+                if t == "setresult":
+                    out.append(Stmt("setresult", pmp=mps[0], smp=mps[1], interps=ints))
+                else:
+                    if lit is not None: pmp, smp = 0, mps[0]
+                    elif len(mps) == 2: pmp, smp = mps
+                    else: pmp, smp = -1, mps[0]
+                    out.append(Stmt("setplugstate", lit=lit, pmp=pmp, smp=smp, interps=ints))
+            elif t in ("foreachplug", "foreachnode", "ifon", "ifoff"):
+                assert toks[pos[0]] == "{"; pos[0] += 1
+                b = block(); assert toks[pos[0]] == "}"; pos[0] += 1
+                out.append(Stmt(t, body=b))
+            else:
+                raise ValueError("token " + t)
+        return out
+    return block()
+
+
+def random_script(rng, kind, depth=0):
+    """random statement list over the whole grammar, plausible enough to make progress against a device that
+    echoes lines: sends, expects on short literal patterns with 0-2 groups, setplugstate/setresult with valid
+    and invalid $N, delays, foreach / ifon / ifoff nesting <= 2"""
+    n = rng.randint(1, 4 if depth else 5)
+    out = []
+    for _ in range(n):
+        r = rng.random()
+        if r < 0.28:
+            out.append(Stmt("send", fmt=rng.choice(["A %s\n", "B\n", "C %s %%\n", "D\n", "", "E %s"])))
+        elif r < 0.56:
+            out.append(Stmt("expect", re_src=rng.choice(["ok\n", "([a-z0-9]+) (ON|OFF|X)\n", "([0-9]*):(ON|OFF)", "done", "p([0-9]+)=([A-Z]+)\n", "x*", "[^\n]*\n", "(a)|(b)"])))
+        elif r < 0.70:
+            lit = rng.choice([None, None, "p1", "zz"])
+            pmp = rng.choice([1, 1, 2, 0, 5]) if lit is None and rng.random() < 0.7 else -1
+            ints = rng.choice([[("on", "^ON$"), ("off", "^OFF$")], [("on", "ON")], [], [("off", "O"), ("on", "ON")]])
+            out.append(Stmt("setplugstate", lit=lit, pmp=pmp if lit is None else 0, smp=rng.choice([2, 2, 1, 0, 3]), interps=ints))
+        elif r < 0.78:
+            out.append(Stmt("setresult", pmp=rng.choice([1, 1, 2]), smp=rng.choice([2, 2, 1]), interps=rng.choice([[("success", "^ON$")], [("success", "O")], [("success", "ON"), ("success", "OFF")]])))
+        elif r < 0.84:
+            out.append(Stmt("delay", secs=rng.choice(["0.5", "1", "0", "2.25"])))
+        elif depth < 2:
+            k = rng.choice(["foreachplug", "foreachnode", "foreachplug", "ifon", "ifoff"])
+            out.append(Stmt(k, body=random_script(rng, kind, depth + 1)))
+        else:
+            out.append(Stmt("send", fmt="F %s\n"))
+    return out
